@@ -370,9 +370,14 @@ class GatewayScenario(Scenario):
             comp.emit(ctx, n, dead, guard=C(0), visible=True, info="(unreachable)")
             return dead, C(NONE)
 
+        def s_sysexit(comp, ctx, node, cur):
+            # sys.exit() raises SystemExit in the calling thread only
+            comp.raise_to(ctx, cur, C(comp.U.exc("SystemExit")), node)
+            return comp.m.new_node(), C(NONE)
+
         return {"close": s_close, "loads_internal": s_loads_internal, "compile": s_compile, "exec": s_exec, "_geterrortext": s_geterrortext,
                 "_initreceive": s_initreceive, "join": s_join, "call_value": s_call_value,
-                "attr:channel.gateway._channelfactory.finished": C(FALSE), "os.kill": s_kill, "os._exit": s_exit, "os.getpid": lambda comp, ctx, node, cur: (cur, C(NONE)),
+                "attr:channel.gateway._channelfactory.finished": C(FALSE), "os.kill": s_kill, "os._exit": s_exit, "sys.exit": s_sysexit, "os.getpid": lambda comp, ctx, node, cur: (cur, C(NONE)),
                 "interrupt_main": lambda comp, ctx, node, cur: (cur, C(NONE))}
 
     def _body(self, comp, ctx, tok, node, cur):
